@@ -1,0 +1,17 @@
+//go:build verif
+
+// Contracts for the deductive checks in /verif (comment-only; not part of normal builds).
+
+package notification
+
+// NotifyAfterPushPull publishes exactly one message on the topic "<collection>/<key>" whose
+// payload is the Notification {CUID, DUID, Sseq} built from its arguments (C18).
+//@ func (*Notifier).NotifyAfterPushPull
+//@   mode wrap
+//@   props C18
+//@   requires n.mqttClient != nil && datatype != nil && ctx != nil
+//@   ensures[one-publish] result == nil ==> G.published == old(G.published) + 1
+//@   ensures[at-most-one] G.published <= old(G.published) + 1
+//@   ensures[topic]   G.published > old(G.published) ==> G.lastTopic == strcat(collectionName, "/", datatype.Key)
+//@   ensures[payload] G.published > old(G.published) ==> G.lastPayload.(*model.Notification).CUID == cuid && G.lastPayload.(*model.Notification).DUID == datatype.DUID && G.lastPayload.(*model.Notification).Sseq == sseq
+//@   modifies G:published, G:lastTopic, G:lastPayload, G:lastMarshaled
